@@ -4734,7 +4734,14 @@ class ResponseFuture(object):
         self.send_request()
 
     def _reprepare(self, prepare_message, host, connection, pool):
-        cb = partial(self.session.submit, self._execute_after_prepare, host, connection, pool)
+        def cb(response):
+            # on the event loop thread, as soon as the PREPARE is answered: from this moment its stream
+            # id may be given to another request, so a timeout that fires before the executor gets to
+            # _execute_after_prepare must not release it
+            if connection is self._connection:
+                self._req_id = None
+            self.session.submit(self._execute_after_prepare, host, connection, pool, response)
+
         request_id = self._query(host, prepare_message, cb=cb)
         if request_id is None:
             # try to submit the original prepared statement on some other host
